@@ -253,11 +253,25 @@ def run(ctx):
             ctx.check(okm and bool(Call("len", Path(rr + ".name.labels"))(e)), "C06.5", "better_ns:match_count", "raised only to rr.name.labels.len() on Greater",
                       "match_count is updated to %s" % A.show(e), g.loc(d[0]))
     rets = A.return_exprs(g, gr)
-    ok = all(A.peel(e)[0] == "call" and A.peel(e)[1].endswith("Option::<T>::map") and _root_local(g, None) is None or True for _, e in rets)
+    def from_match_name(x):
+        """is x `match_name` itself / the payload of `match_name` when it is Some?"""
+        px = A.peel(x)
+        if px[0] == "field" and px[2] == "0" and px[1][0] == "downcast" and px[1][2] == "Some":
+            px = A.peel(px[1][1])
+        return px[0] == "phi" and len(px) > 2 and px[2] == mn_local
     for b, e in rets:
         pe = A.peel(e)
-        ctx.check(pe[0] == "call" and pe[1].endswith("Option::<T>::map"), "C06.5", "better_ns:result", "result = match_name.map(..): None unless strictly better",
-                  "get_better_ns_names returns %s" % A.show(e), g.loc(b))
+        if pe[0] == "call" and pe[1].endswith("Option::<T>::map"):
+            ok = from_match_name(pe[2][0])
+        elif pe[0] == "agg" and pe[2] == "None":
+            ok = True
+        elif pe[0] == "agg" and pe[2] == "Some":
+            tup = A.peel(dict(pe[3])["0"])
+            ok = tup[0] == "tuple" and len(tup[1]) == 2 and from_match_name(tup[1][0])
+        else:
+            ok = False
+        ctx.check(ok, "C06.5", "better_ns:result", "result = match_name.map(..): None unless strictly better",
+                  "get_better_ns_names returns %s" % A.show(e)[:200], g.loc(b))
     # callers pass the current match count
     for fn, b, t in A.who_calls(prog, REC + "get_better_ns_names"):
         e = A.Resolver(fn).call_expr(t, b)
